@@ -11,6 +11,11 @@ for d in sorted(glob.glob('/tmp/mutants/C??/[a-l]')):
         continue
     pid = d.split('/')[-2]; x = d.split('/')[-1]
     out = f'/verif/seeded/{pid}-{x}'
+    try:
+        if 'rebased' in json.load(open(os.path.join(out, 'meta.json'))):
+            continue  # the patch was rebased by hand onto a later fix commit: keep it
+    except Exception:
+        pass
     os.makedirs(out, exist_ok=True)
     shutil.copy(os.path.join(d, 'patch.diff'), out)
     shutil.copy(os.path.join(d, 'demo.rs'), out)
